@@ -709,13 +709,15 @@ class Ctx:
     """Analysis context of one body, optionally nested in a parent (closure inside fn):
     maps the closure's upvars and parameters to parent-level origins."""
 
-    def __init__(self, body, parent=None, upvars=None, params=None, site_bb=None):
+    def __init__(self, body, parent=None, upvars=None, params=None, site_bb=None, consumer=None):
         self.body = body
         self.org = body.origins()
         self.parent = parent  # Ctx
         self.upvars = upvars or {}  # k -> set of parent-level (ctx, origin)
         self.params = params or {}  # arg index -> set of (ctx, origin)
         self.site_bb = site_bb  # block in parent where the closure is created
+        # (block of the parent's call that receives this closure, callee tag, argument position)
+        self.consumer = consumer
 
     def top(self):
         c = self
@@ -934,6 +936,7 @@ def body_effects(facts, ctx, depth=0, _stack=()):
     org = ctx.org
     # 1. closures created here
     bindings = closure_bindings(ctx)
+    cons_full = closure_consumers(ctx)
     for (bi, si, ckey, ops) in closure_sites(body):
         cbody = facts.body(ckey)
         if cbody is None:
@@ -945,7 +948,9 @@ def body_effects(facts, ctx, depth=0, _stack=()):
                 s |= base_places(ctx, o)
             upv[k] = s
         params = bindings.get((bi, si), {})
-        cctx = Ctx(cbody, parent=ctx, upvars=upv, params=params, site_bb=bi)
+        cons = cons_full.get((bi, si), [])
+        cctx = Ctx(cbody, parent=ctx, upvars=upv, params=params, site_bb=bi,
+                   consumer=cons[0] if cons else None)
         out.extend(body_effects(facts, cctx, depth, _stack))
     # 2. calls
     for (bi, t) in body.calls():
@@ -1030,12 +1035,43 @@ PAYLOAD_PARAM = {
 }
 
 
+def closure_consumers(ctx):
+    """(bb, si) of a closure aggregate -> [(bb of the call receiving it, callee tag, arg position)]"""
+    org = ctx.org
+    sites = {("agg", bi, si): (bi, si) for (bi, si, ck, ops) in closure_sites(ctx.body)}
+    out = {}
+    if not sites:
+        return out
+    for (bi, t) in ctx.body.calls():
+        for k, a in enumerate(t["args"]):
+            for (r, p) in org.operand(a):
+                if r in sites and p == ():
+                    out.setdefault(sites[r], []).append((bi, callee_tag(t.get("callee")), k))
+    return out
+
+
+def all_ctxs(facts, body, depth=0):
+    """the body's own context followed by the contexts of the closures created in it (nested)"""
+    top = Ctx(body)
+    out = [top]
+
+    def rec(c, d):
+        if d > 3:
+            return
+        for (cc, cbi, consumers) in closure_ctxs(facts, c):
+            out.append(cc)
+            rec(cc, d + 1)
+    rec(top, 0)
+    return out
+
+
 def closure_ctxs(facts, ctx):
     """[(closure ctx, creation bb, consuming call bb or None)] for closures created in ctx.body,
     with upvars and (where the consuming callee is known) parameters bound to parent-level places"""
     out = []
     org = ctx.org
     bindings = closure_bindings(ctx)
+    cons_full = closure_consumers(ctx)
     consumers = {}
     sites = {("agg", bi, si): (bi, si) for (bi, si, ck, ops) in closure_sites(ctx.body)}
     for (bi, t) in ctx.body.calls():
@@ -1053,7 +1089,9 @@ def closure_ctxs(facts, ctx):
             for o in org.operand(op):
                 s |= base_places(ctx, o)
             upv[k] = s
-        cctx = Ctx(cbody, parent=ctx, upvars=upv, params=bindings.get((bi, si), {}), site_bb=bi)
+        cons = cons_full.get((bi, si), [])
+        cctx = Ctx(cbody, parent=ctx, upvars=upv, params=bindings.get((bi, si), {}), site_bb=bi,
+                   consumer=cons[0] if cons else None)
         out.append((cctx, bi, consumers.get((bi, si), [])))
     return out
 
